@@ -94,7 +94,7 @@ PROPS["C12"] = {
 }
 PROPS["C15"] = {
     "units": ["scan"],
-    "probes": {"scan": ["depfile::read_path", "depfile::parse", "smallmap::SmallMap::insert"]},
+    "probes": {"scan": ["depfile::read_path", "depfile::parse", "smallmap::SmallMap::push"]},
     "level": "proof",
     "assumptions": SCAN_ASSUME + ["task::read_depfile (missing file => empty, flattening of the map by iterator adapters, naming the depfile in the error) is not under contract",
         "the grammar is specified at token level (what delimits a token); equivalence with GNU make's full grammar is not claimed"],
@@ -260,8 +260,8 @@ LEVEL_TEXT = {
         "design_ref": "DESIGN.md §6 C12",
     },
     "C15": {
-        "text": "Unbounded proof (Verus) on the real depfile.rs: read_path returns exactly the bytes from the first non-skipped offset up to (excluding) the first delimiter -- NUL, space, newline, or a backslash followed by a newline -- so colons and other backslashes stay inside a token; parse terminates on every input, and (loop invariant) the flattened result equals the concatenation, in order, of the prerequisites read for every entry, except when a target is repeated (known finding D11: SmallMap::insert replaces).",
-        "note": "KNOWN-FINDING D11 printed on the unchanged tree. task::read_depfile glue not under contract.",
+        "text": "Unbounded proof (Verus) on the real depfile.rs: read_path returns exactly the bytes from the first non-skipped offset up to (excluding) the first delimiter -- NUL, space, newline, or a backslash followed by a newline -- so colons and other backslashes stay inside a token; parse terminates on every input, and (loop invariant) the flattened result equals the concatenation, in order, of the prerequisites read for every entry, repeated targets included (entries are appended with SmallMap::push since the fix for D11).",
+        "note": "D11 (a repeated target lost its earlier prerequisites) was found by this contract and is fixed in /repo (6d385c8). task::read_depfile glue not under contract.",
         "design_ref": "DESIGN.md §6 C15",
     },
     "C10": {
